@@ -5,6 +5,27 @@ from .common import NONE
 
 BASE_ENUM_DERIVES = ["PartialEq", "Eq", "PartialOrd", "Ord", "Debug"]
 
+ANCHOR = {"i128min": -2**127 + 8, "i64min": -2**63, "i32min": -2**31, "i16min": -2**15, "i8min": -128, "0": 0,
+          "i8max": 127, "u8max": 255, "i16max": 2**15 - 1, "u16max": 2**16 - 1, "i32max": 2**31 - 1,
+          "u32max": 2**32 - 1, "i64max": 2**63 - 1, "u64max": 2**64 - 1, "i128max": 2**127 - 9, "u128max": 2**127 - 9}
+
+
+def num(v):
+    if isinstance(v, dict) and "a" in v:
+        return ANCHOR[v["a"]] + v["d"]
+    return v
+
+
+def denum(x):
+    """replace the specification's symbolic integers [a, d] by plain ones everywhere in a JSON value"""
+    if isinstance(x, dict):
+        if set(x.keys()) == {"a", "d"}:
+            return NONE if x["a"] == "none" else num(x)
+        return {k: denum(v) for k, v in x.items()}
+    if isinstance(x, list):
+        return [denum(v) for v in x]
+    return x
+
 
 def norm_reg(entries):
     out = {}
@@ -45,7 +66,7 @@ def _first_diff(a, b, path=""):
 
 
 def reg_drift(mirror_reg, obs_reg):
-    m, o = norm_reg(mirror_reg), norm_reg(obs_reg)
+    m, o = norm_reg(denum(mirror_reg)), norm_reg(obs_reg)
     diffs = []
     for p in sorted(set(m) | set(o)):
         if p not in m:
@@ -173,6 +194,7 @@ def _meth_norm(m):
 def files_drift(mirror_out, obs_files):
     """mirror_out: list of abstract files; obs_files: list of {rel, proj}"""
     diffs = []
+    mirror_out = denum(mirror_out)
     of = {tuple(f["rel"][:-3].split("/")): f for f in obs_files or [] if f["rel"].endswith(".rs")}
     mf = {tuple(f["path"]): f for f in mirror_out or []}
     for p in sorted(set(of) | set(mf)):
